@@ -6,6 +6,8 @@ after k requests, work of d virtual seconds per request, yielded timeouts, malfo
 at, just before and just after the instant a handler finishes. Oracle: per address the handler sees every datagram once in
 arrival order; at most one live generator per address; each datagram is handled at the time predicted by a per-client FIFO
 model (so one client's slow handler never delays another); the server never reports an inconsistent state.
+Back-pressure scenario: replies through the real asyncio listener adapter (write flow control shared by all clients) with scripted
+pause/resume notifications and per-client reply timeouts; one client's abandoned reply never fails or strands another client's handler.
 """
 
 from __future__ import annotations
